@@ -81,6 +81,7 @@ class Obligation(object):
             paths = explore(ctx.model, thunk, opts)
         except Undecidable as e:
             return ctx.undecided(self.rule, fi.qualname, construct, 'outside the fragment: %s' % e, where=where(fi))
+        ctx.extra['label_paths_explored'] = ctx.extra.get('label_paths_explored', 0) + len(paths)
         verdict = True
         details = []
         returned = 0
